@@ -1877,3 +1877,64 @@ def store17(ctx) -> List[Ob]:
         else:
             out.append(unresolved("STORE-17", m.qualname, key, where, "the stage driver is not written as 'top-level region, then every region of iter_subregions()'"))
     return out
+
+
+@rule("STORE-18", 3, "restructure() closes the graph, then restructures loops, then branches, on every path to its return: no stage is skipped or taken out of order under a condition on the graph")
+def store18(ctx) -> List[Ob]:
+    out: List[Ob] = []
+    scfg = ctx.prog.cls("SCFG")
+    m = scfg.find_method("restructure")
+    if m is None:
+        raise AnalysisError("SCFG.restructure not found")
+    stages = ["join_returns", "restructure_loop", "restructure_branch"]
+    cfg = ctx.cfg(m)
+    where = ctx.where(m)
+
+    def calls_stage(n, st) -> bool:
+        if n.stmt is None or isinstance(n.stmt, (ast.FunctionDef, ast.AsyncFunctionDef, ast.ClassDef)):
+            return False
+        roots = [n.stmt.test] if n.kind in ("if", "while") else ([n.stmt.iter] if n.kind == "for" else [n.stmt])
+        for r in roots:
+            for c in ast.walk(r):
+                if isinstance(c, ast.Call) and isinstance(c.func, ast.Attribute) and c.func.attr == st and A.unparse(c.func.value) == "self":
+                    return True
+        return False
+
+    # the stages handed to a loop as bound methods:  for stage in (self.join_returns, ..): stage()
+    for lp in [n for n in A.walk_no_nested(m.node) if isinstance(n, ast.For)]:
+        if isinstance(lp.iter, (ast.Tuple, ast.List)) and isinstance(lp.target, ast.Name) and not lp.orelse:
+            names = [e.attr if isinstance(e, ast.Attribute) and A.unparse(e.value) == "self" else None for e in lp.iter.elts]
+            body_calls = [s_ for s_ in lp.body if isinstance(s_, ast.Expr) and isinstance(s_.value, ast.Call) and isinstance(s_.value.func, ast.Name) and s_.value.func.id == lp.target.id and not s_.value.args]
+            if names and all(names) and len(body_calls) == 1 and len(lp.body) == 1 and cfg.all_paths_pass(cfg.entry, cfg.exit, lambda n, lp=lp: n.stmt is lp):
+                key = "stages in order on every path"
+                if [x for x in names if x in stages] == stages:
+                    out.append(ok("STORE-18", m.qualname, key, where, "one unconditional loop calls " + ", ".join(names) + " in this order"))
+                else:
+                    out.append(bad("STORE-18", m.qualname, key, ctx.where(m, lp), f"the stages are run in the order {names}: branch restructuring needs the closed graph with its loops already extracted"))
+                return out
+    present = [st for st in stages if any(calls_stage(n, st) for n in cfg.nodes)]
+    for st in stages:
+        key = f"{st} on every path"
+        if st not in present:
+            out.append(bad("STORE-18", m.qualname, key, where, f"restructure() does not call self.{st}(): the stage is missing from the pipeline"))
+            continue
+        if cfg.exit in cfg.reachable(cfg.entry, avoid=lambda n, st=st: calls_stage(n, st)):
+            skip = next((n for n in cfg.nodes if n.kind == "if" and n.stmt is not None), None)
+            out.append(bad("STORE-18", m.qualname, key, ctx.where(m, skip.stmt) if skip is not None else where, f"there is a path through restructure() that returns without running self.{st}(): for the graphs that take it the result is not closed / keeps its loops / keeps blocks with two successors outside of head regions"))
+        else:
+            out.append(ok("STORE-18", m.qualname, key, where, f"every path from the entry to the return runs self.{st}()"))
+    key = "stage order"
+    if len(present) == 3:
+        bad_order = None
+        for i, later in enumerate(stages):
+            for earlier in stages[:i]:
+                # a node that runs `later` must not be reachable without having run `earlier`
+                reach = cfg.reachable(cfg.entry, avoid=lambda n, e=earlier: calls_stage(n, e), include_src=True)
+                if any(calls_stage(n, later) and not calls_stage(n, earlier) for n in reach):
+                    bad_order = (earlier, later)
+        if bad_order:
+            out.append(bad("STORE-18", m.qualname, key, where, f"self.{bad_order[1]}() can run before self.{bad_order[0]}(): loops are looked for in a graph that is not closed yet / branches in a graph that still has its loops"))
+        else:
+            out.append(ok("STORE-18", m.qualname, key, where, "join_returns, then restructure_loop, then restructure_branch"))
+    return out
+
